@@ -14,6 +14,8 @@ CLAIMS = {
          "Only the identifier/challenge selection is decided; hook ordering in request_certificate and the proof strings are outside (flow / format! did not converge).", "5 C05"),
  'C06': ("For every (days, secs) pair OpenSSL's time difference can return (full i32 range of days) the solver shows expires_in is the exact remaining lifetime clamped at 0, with no overflow; renew_in/schedule_renewal arithmetic per DESIGN.md C06.",
          "Trusted: OpenSSL ASN.1 time parsing/diff (modelled by contract), rustc->Kani->CBMC translation. Bounds and cuts are listed in the evidence file of each run.", "5 C06"),
+ 'C07': ("Narrow: on a verbatim source slice of main_event_loop::renew_certificate (whole body, de-sugared to one task) the solver shows, for every outcome of scheduling (<= 2 errors, then any u32 delay), of the request and of the post-operation hooks, that one attempt makes exactly one request, runs the post-operation hooks exactly once with is_success == request Ok and status 'success' iff Ok, returns even when the hooks fail, and sleeps >= 60 s after each scheduling error.",
+         "One attempt only. What request_certificate does inside, the pause between a FAILED attempt and the next one (the main loop re-queues at once and schedule_renewal answers ZERO when no certificate exists: observed by reading, not decided), panics/aborts and non-interference between certificates are outside.", "5 C07"),
  'C08': ("For every ASCII problem-type string up to 48 bytes the solver shows that the real classification retries exactly the seven recoverable ACME types; the retry loop of http::post is covered per DESIGN.md C08 as far as its harness converged.",
          "serde_json parsing of the problem document and reqwest are trusted; non-ASCII / longer type strings are outside the bound.", "5 C08"),
  'C09': ("Inductive single step of the real RateLimit::block_until_allowed from an arbitrary log: window count and no-forgetting invariants hold for every log content, period 1..20 s and clock reading (n<=3, <=2 limits); with the induction argument in DESIGN.md this bounds every window of every history. Liveness: a permitted request returns after one sleep.",
@@ -33,7 +35,6 @@ CLAIMS = {
 }
 NA = {
  'C03': "request_certificate as a whole did not reach a solver verdict within reach of Kani/CBMC (async state machine + heap): no sound check, see DESIGN.md section 4",
- 'C07': "renew_certificate with cuts is encoded (harness/main_event_loop.rs) but every run ended in solver out-of-memory or timeout (Arc<RwLock<Account>> drop glue, hashbrown): no verdict, no claim",
  'C10': "hooks::call/call_single on the async-process model and Config::get_hook are encoded (harness/hooks.rs, harness/config.rs) but all runs ended in timeout or solver out-of-memory (HashSet<HookType> membership, Hook clones): no verdict, no claim",
  'C12': "concurrency: Kani/CBMC has no model of interleaved tasks; the single-task lock-discipline substitute depends on the flow harness, which did not converge",
  'C16': "tacd's observable behaviour is a TLS handshake produced by OpenSSL through FFI over a socket; no Rust-side logic to execute symbolically",
